@@ -6,8 +6,10 @@ import time
 
 from . import build, findings
 
-EVDIR = os.path.join(build.VERIF, "evidence")
-REPLAYDIR = os.path.join(build.VERIF, "evidence", "replay")
+# VERIF_EVIDENCE_DIR: only tools/try_mutant.py sets it, so that runs against a deliberately broken tree do not overwrite
+# the evidence of the real tree
+EVDIR = os.environ.get("VERIF_EVIDENCE_DIR") or os.path.join(build.VERIF, "evidence")
+REPLAYDIR = os.path.join(EVDIR, "replay")
 
 
 def jsonable(x):
